@@ -614,4 +614,28 @@ theorem C04_line_to_addrs_counterexample : ¬ C04_line_to_addrs_complete_full :=
   subst hp
   revert hk; decide
 
+/-- a second witness, found by the correspondence run on std code (`core/src/fmt/mod.rs:820` in a stock binary): two functions whose
+only row of line 35 is a prologue_end row with the SAME column and flags, adjacent in the file's row list. -/
+def cexPeUnit : CUnit := {
+  ranges := #[⟨0x10, 0x20⟩],
+  files := #[7, 7],
+  rows := #[
+    { addr := 0x10, file := 1, line := 35, col := 2, stmt := true, pe := true,  eb := false, es := false },
+    { addr := 0x18, file := 1, line := 35, col := 2, stmt := true, pe := true,  eb := false, es := false },
+    { addr := 0x20, file := 1, line := 35, col := 2, stmt := true, pe := false, eb := false, es := true }],
+  fnRanges := #[⟨0x10, 0x18, 100⟩, ⟨0x18, 0x20, 200⟩],
+  fns := #[{ die := 100, name := some 0, ranges := [⟨0x10, 0x18⟩] }, { die := 200, name := some 1, ranges := [⟨0x18, 0x20⟩] }] }
+
+/-- **C04_line_to_addrs_counterexample_pe_lookahead.** Completeness also fails without any difference in column or flags: the
+look-ahead "prefer a prologue_end sibling" starts from a row that IS a prologue_end row, jumps to the next one and never comes
+back: `break file:35` yields only 0x18 (second function); the first function, whose row is identical, gets none. -/
+theorem C04_line_to_addrs_counterexample_pe_lookahead : ¬ C04_line_to_addrs_complete_full := by
+  intro h
+  have hres : findClosestPlace #[cexPeUnit] 7 35 = [(0, 1, cexPeUnit.rows[1])] := by decide
+  obtain ⟨p, hp, hk⟩ := h #[cexPeUnit] 7 35 0 0 cexPeUnit cexPeUnit.rows[0] 1 rfl (by decide) (by decide) (by decide) (by decide) (by decide) (by decide)
+  rw [hres] at hp
+  simp only [List.mem_singleton] at hp
+  subst hp
+  revert hk; decide
+
 end BsVerif.Lines
